@@ -199,12 +199,14 @@ type CreateView struct {
 	Name      string
 	Cols      []string
 	Query     S
+	// WithOption is "", "CHECK OPTION", "CASCADED CHECK OPTION" or "LOCAL CHECK OPTION"
+	WithOption string
 }
 
 // Build renders CREATE VIEW.
 func (c CreateView) Build() S {
 	t := kws("CREATE")
-	n := &ast.CreateViewStatement{OrReplace: c.OrReplace, Temporary: c.Temporary, Name: c.Name, Columns: c.Cols, Query: c.Query.N}
+	n := &ast.CreateViewStatement{OrReplace: c.OrReplace, Temporary: c.Temporary, Name: c.Name, Columns: c.Cols, Query: c.Query.N, WithOption: c.WithOption}
 	fs := [][]string{{"create-view", "create-view.query:" + c.Query.Kind}, c.Query.Feat}
 	if hasFeat(c.Query.Feat, "with") && c.Query.Toks[0].S == "WITH" {
 		fs = append(fs, []string{"create-view.query-with"})
@@ -223,6 +225,10 @@ func (c CreateView) Build() S {
 		fs = append(fs, []string{"create-view.columns"})
 	}
 	t = cat(t, kws("AS"), c.Query.Toks)
+	if c.WithOption != "" {
+		t = cat(t, kws("WITH "+c.WithOption))
+		fs = append(fs, []string{"create-view.with-option"})
+	}
 	return S{Toks: t, N: n, Feat: mergeFeat(fs...), Names: c.Query.Names, Kind: "create-view"}
 }
 
@@ -327,6 +333,9 @@ func DDLCases(yield func(name string, s S)) {
 			c.Cols = []string{"a1"}
 		}
 		yield("create-view", c.Build())
+	}
+	for _, wo := range []string{"CHECK OPTION", "CASCADED CHECK OPTION", "LOCAL CHECK OPTION"} {
+		yield("create-view-option", CreateView{Name: "v1", Query: simpleSel("t1"), WithOption: wo}.Build())
 	}
 	for m := 0; m < 4; m++ {
 		for _, wd := range []string{"", "WITH DATA", "WITH NO DATA"} {
